@@ -62,6 +62,8 @@ def to_str(I, ctx, val, spec=None, conv=-1):
             m, owner = val.cls.lookup("__repr__")
         if m is not None and hasattr(m, "node"):
             return I.call(ctx, m, [val], {})
+        if isinstance(m, Builtin) and m.fn is not None:
+            return I.call(ctx, m, [val], {})
     if isinstance(val, ExcVal):
         return FmtStr([("exc", val)])
     return FmtStr([("str", val)])
